@@ -186,6 +186,7 @@ def apply_reference(repo):
             _drop_self_assignments(repo.funcs[q].node)
             _thread_none_tests(repo.funcs[q].node)
     repo.struct_objects = expand_struct_objects(repo, ref)
+    repo.star_forms = expand_star_forms(repo, ref)
     repo.unrolled_tables = unroll_constant_tables(repo, ref)
     repo.sentinel_getattrs = sentinel_getattr_guards(repo, ref)
     repo.dict_get_guards = dict_get_guards(repo, ref)
@@ -1045,6 +1046,125 @@ def _mapping_mutators(repo, chain):
                 if c is not None and c[-1] == name:
                     out.add(q)
     return out
+
+
+def _module_constant_tuples(repo, mod):
+    """{NAME: [element ast]} for module-level NAME = (<constants>) bound once and never declared global"""
+    cached = getattr(mod, "_const_tuples", None)
+    if cached is not None:
+        return cached
+    count = {}
+    for st in mod.tree.body:
+        for x in ast.walk(st) if not isinstance(st, (ast.FunctionDef, ast.AsyncFunctionDef, ast.ClassDef)) else []:
+            if isinstance(x, ast.Name) and isinstance(x.ctx, (ast.Store, ast.Del)):
+                count[x.id] = count.get(x.id, 0) + 1
+    written = {n for x in ast.walk(mod.tree) if isinstance(x, ast.Global) for n in x.names}
+    out = {}
+    for st in mod.tree.body:
+        if isinstance(st, ast.Assign) and len(st.targets) == 1 and isinstance(st.targets[0], ast.Name) and isinstance(st.value, (ast.Tuple, ast.List)) \
+                and all(isinstance(e, ast.Constant) for e in st.value.elts) and count.get(st.targets[0].id) == 1 and st.targets[0].id not in written:
+            out[st.targets[0].id] = list(st.value.elts)
+    mod._const_tuples = out
+    return out
+
+
+def expand_star_forms(repo, ref):
+    """three spellings that hide a fixed number of values behind a star or a tuple:
+    f(a, *T, b) for a module-level constant tuple T is f(a, t0, t1, t2, b);
+    *c, a, b = struct.unpack(<literal format of n fields>, x) with c only ever used as *c in calls is c_0, .., a, b = ... and the
+    uses are c_0, ..;
+    (a, b) != (c, d) over call-free operands is a != c or b != d (== gives `and`)."""
+    import struct as _struct
+    done = {}
+    for q, fi in repo.funcs.items():
+        if fi.is_lambda or q not in ref:
+            continue
+        own = {n for n, _ in _bound_names(fi.node)[0]} | set(fi.params)
+        consts = _module_constant_tuples(repo, fi.module)
+        n_done = 0
+        # starred targets of a struct.unpack with a literal format
+        for st in [n for n in walk_own(fi.node) if isinstance(n, ast.Assign)]:
+            if len(st.targets) == 1 and isinstance(st.targets[0], ast.Tuple) and sum(isinstance(e, ast.Starred) for e in st.targets[0].elts) == 1 \
+                    and isinstance(st.value, ast.Call) and ast.unparse(st.value.func) == "struct.unpack" and st.value.args and isinstance(st.value.args[0], ast.Constant) \
+                    and isinstance(st.value.args[0].value, str):
+                try:
+                    arity = len(_struct.unpack(st.value.args[0].value, bytes(_struct.calcsize(st.value.args[0].value))))
+                except Exception:
+                    continue
+                elts = st.targets[0].elts
+                k = [i for i, e in enumerate(elts) if isinstance(e, ast.Starred)][0]
+                if not isinstance(elts[k].value, ast.Name):
+                    continue
+                name = elts[k].value.id
+                width = arity - (len(elts) - 1)
+                if width < 0:
+                    continue
+                occ = [n for n in walk_own(fi.node) if isinstance(n, ast.Name) and n.id == name]
+                loads = [n for n in occ if isinstance(n.ctx, ast.Load)]
+                if len(occ) - len(loads) != 1:
+                    continue
+                if not all(isinstance(getattr(n, "_parent", None), ast.Starred) and isinstance(getattr(n._parent, "_parent", None), ast.Call)
+                           and any(a is n._parent for a in n._parent._parent.args) for n in loads):
+                    continue
+                parts = ["%s_%d" % (name, i) for i in range(width)]
+                if any(p_ in own for p_ in parts):
+                    continue
+                for n in loads:
+                    call = n._parent._parent
+                    idx = [i for i, a in enumerate(call.args) if a is n._parent][0]
+                    new_args = [ast.Name(id=p_, ctx=ast.Load()) for p_ in parts]
+                    for a_ in new_args:
+                        ast.copy_location(a_, n)
+                        a_._parent = call
+                    call.args[idx:idx + 1] = new_args
+                    _invalidate(call)
+                new_t = [ast.Name(id=p_, ctx=ast.Store()) for p_ in parts]
+                for a_ in new_t:
+                    ast.copy_location(a_, elts[k])
+                    a_._parent = st.targets[0]
+                elts[k:k + 1] = new_t
+                _invalidate(st)
+                n_done += 1
+        # constant star arguments
+        for c in [n for n in walk_own(fi.node) if isinstance(n, ast.Call)]:
+            i = 0
+            while i < len(c.args):
+                a_ = c.args[i]
+                if isinstance(a_, ast.Starred) and isinstance(a_.value, ast.Name) and a_.value.id in consts and a_.value.id not in own:
+                    new_args = [ast.parse(ast.unparse(e), mode="eval").body for e in consts[a_.value.id]]
+                    for x in new_args:
+                        for y in ast.walk(x):
+                            ast.copy_location(y, a_)
+                        x._parent = c
+                    c.args[i:i + 1] = new_args
+                    i += len(new_args)
+                    _invalidate(c)
+                    n_done += 1
+                else:
+                    i += 1
+        # comparisons of two tuple displays
+        for cmp_ in [n for n in walk_own(fi.node) if isinstance(n, ast.Compare)]:
+            if len(cmp_.ops) == 1 and isinstance(cmp_.ops[0], (ast.Eq, ast.NotEq)) and isinstance(cmp_.left, ast.Tuple) and isinstance(cmp_.comparators[0], ast.Tuple) \
+                    and len(cmp_.left.elts) == len(cmp_.comparators[0].elts) >= 2 and getattr(cmp_, "_parent", None) is not None:
+                ops = cmp_.left.elts + cmp_.comparators[0].elts
+                if any(isinstance(x, ast.Starred) for x in ops):
+                    continue
+                # operands without effects: names, constants, attribute chains, len() of such
+                def plain(e):
+                    if isinstance(e, (ast.Name, ast.Constant)) or _chain(e) is not None:
+                        return True
+                    return isinstance(e, ast.Call) and isinstance(e.func, ast.Name) and e.func.id == "len" and len(e.args) == 1 and not e.keywords and plain(e.args[0])
+                if not all(plain(e) for e in ops):
+                    continue
+                sym, join = ("!=", " or ") if isinstance(cmp_.ops[0], ast.NotEq) else ("==", " and ")
+                txt = join.join("%s %s %s" % (ast.unparse(l), sym, ast.unparse(r)) for l, r in zip(cmp_.left.elts, cmp_.comparators[0].elts))
+                _install(cmp_, ast.parse("(%s)" % txt, mode="eval").body)
+                n_done += 1
+        if n_done:
+            done[q] = n_done
+    if done:
+        _clear_analysis_caches()
+    return done
 
 
 def _never_none_mapping(repo, chain):
@@ -2410,6 +2530,10 @@ def _thread_flags(fnode):
                 break
 
 
+_EXCEPTION_CLASSES = {"ValueError", "TypeError", "KeyError", "IndexError", "Exception", "RuntimeError", "AttributeError", "OSError", "IOError", "LookupError",
+                      "ArithmeticError", "NotImplementedError", "AssertionError", "StopIteration", "UnicodeError"}
+
+
 def _thread_none_tests(fnode):
     """S; if X is None: A else: B   (or `is not None`) where every normal way out of the compound statement S ends with an
     assignment to the local X and at least one of them assigns a constant: the test moves to the ends of S - decided for the
@@ -2417,6 +2541,7 @@ def _thread_none_tests(fnode):
     helper looks like after it was put back at its call site."""
     changed = True
     rounds = 0
+    own_names = {n.id for n in walk_own(fnode) if isinstance(n, ast.Name) and isinstance(n.ctx, ast.Store)} | {a_.arg for a_ in fnode.args.args}
     while changed and rounds < 20:
         changed = False
         rounds += 1
@@ -2452,8 +2577,10 @@ def _thread_none_tests(fnode):
                 for l, k in zip(live, binds):
                     v = l[k].value
                     parent = l[k]._parent
-                    if isinstance(v, ast.Constant):
-                        suite = s2.body if ((v.value is None) == is_none) else s2.orelse
+                    never_none = isinstance(v, ast.Call) and isinstance(v.func, ast.Name) and v.func.id in _EXCEPTION_CLASSES and v.func.id not in own_names
+                    if isinstance(v, ast.Constant) or never_none:
+                        # (a freshly constructed builtin exception is an object, not None)
+                        suite = s2.body if (((v.value is None) if isinstance(v, ast.Constant) else False) == is_none) else s2.orelse
                         rep = [ast.parse(ast.unparse(x)).body[0] for x in suite]
                     else:
                         rep = [ast.parse(ast.unparse(s2)).body[0]]
